@@ -550,12 +550,29 @@ mod exec {
         }
     }
 
+    // Like WriteAdapter, the read adapters must close their stream before
+    // Popen::drop() waits for the process to exit.  A child that is blocked
+    // writing output nobody will read any more would otherwise never exit,
+    // and the caller has no other way of closing the stream.
+
+    impl Drop for ReadOutAdapter {
+        fn drop(&mut self) {
+            self.0.stdout.take();
+        }
+    }
+
     #[derive(Debug)]
     struct ReadErrAdapter(Popen);
 
     impl Read for ReadErrAdapter {
         fn read(&mut self, buf: &mut [u8]) -> io::Result<usize> {
             self.0.stderr.as_mut().unwrap().read(buf)
+        }
+    }
+
+    impl Drop for ReadErrAdapter {
+        fn drop(&mut self) {
+            self.0.stderr.take();
         }
     }
 
@@ -1127,6 +1144,14 @@ mod pipeline {
         fn read(&mut self, buf: &mut [u8]) -> io::Result<usize> {
             let last = self.0.last_mut().unwrap();
             last.stdout.as_mut().unwrap().read(buf)
+        }
+    }
+
+    impl Drop for ReadPipelineAdapter {
+        // the same rationale as Drop for ReadOutAdapter
+        fn drop(&mut self) {
+            let last = self.0.last_mut().unwrap();
+            last.stdout.take();
         }
     }
 
